@@ -18,7 +18,8 @@ ASSUMPTIONS = ['inputs outside the premise (aliases, keys with blanks, adjacent 
 
 # words in which an operator word is joined to the rest by a character that is legal in a key but not a letter:
 # one word, not an operator
-OPGLUED = ['or-later', 'OR-LATER', 'with:foo', 'and.more', 'and+', 'gpl-or', 'x.with', 'with-classpath', 'Or+', '-and-']
+OPGLUED = ['or-later', 'OR-LATER', 'with:foo', 'and.more', 'and+', 'gpl-or', 'x.with', 'with-classpath', 'Or+', '-and-',
+           '&', '|', '~', '!', 'g&l']     # ... and the operator signs of boolean.py, which are no operators here
 
 
 class Prop(BaseProp):
